@@ -324,3 +324,21 @@ def op_tag(cfg):
     if cfg['kind'] == 'broadcast':
         return 'bc(' + ','.join(op_tag(c) for c in cfg['ops']) + ')'
     return cfg['kind']
+
+
+def true_lipschitz(cfg):
+    """Lipschitz constant of the gradient of a smooth family, computed by the
+    harness (odl's `grad_lipschitz` attribute is C09's subject and is not
+    trusted for admissibility)."""
+    fam, lam = cfg['fam'], cfg.get('lam', 1.0)
+    if fam in ('l2sq', 'l2sq_trans', 'l2sq_p'):
+        return 2.0 * abs(lam)
+    if fam == 'huber':
+        return abs(lam) / cfg.get('gamma', 0.5)
+    if fam == 'quadpert_smooth':
+        return 2.0 + 2.0 * abs(lam)
+    if fam in ('zero', 'const'):
+        return 0.0
+    if fam == 'sepsum':
+        return max(true_lipschitz(c) for c in cfg['parts'])
+    return float('inf')
